@@ -459,6 +459,16 @@ class Evaluator:
         src = e.get("src")
         if src == "ForLoopDesugar":
             self.loops += 1
+            if self.ints:
+                done = False
+                for s1, it in self.ev(e["e"], st):
+                    seq = self.as_seq(it)
+                    if seq is None or len(seq) > 64:
+                        break
+                    yield from self.unroll(e, s1, seq)
+                    done = True
+                if done:
+                    return
             # the loop body is evaluated once with opaque items to collect returns; then control continues
             yield from self.loop(e, st)
             return
@@ -528,6 +538,64 @@ class Evaluator:
         # loop finished without returning
         yield st.fork(("loop-done",)), ("unit",)
 
+    @staticmethod
+    def as_seq(v):
+        """items of a concrete sequence value (array / unrolled iterator), None otherwise"""
+        if isinstance(v, tuple) and v[0] in ("array", "iterv") and len(v) > 1 and isinstance(v[1], list):
+            return v[1]
+        if isinstance(v, tuple) and v[0] == "call" and isinstance(v[1], str) and v[1].endswith("IntoIterator::into_iter") and len(v[2]) == 1:
+            return Evaluator.as_seq(v[2][0])
+        return None
+
+    def unroll(self, e, st, seq):
+        """a `for` loop over a concrete sequence: the body is evaluated once per item, in order; break / continue / return are honoured"""
+        body_arms = []
+
+        def find(n):
+            if isinstance(n, dict):
+                if n.get("k") == "Match" and n.get("src") == "ForLoopDesugar" and n is not e:
+                    body_arms.append(n)
+                    return
+                for v in n.values():
+                    if isinstance(v, (dict, list)):
+                        find(v)
+            elif isinstance(n, list):
+                for x in n:
+                    find(x)
+        find(e["arms"])
+        some = None
+        for arm in (body_arms[0]["arms"] if body_arms else []):
+            if arm["p"].get("k") in ("TupleStruct", "Struct") and arm["p"].get("path", "").endswith("Some"):
+                some = arm
+        if some is None:
+            yield st.fork(("loop-done",)), ("unknown", "loop")
+            return
+        sub = some["p"]["ps"][0] if some["p"].get("ps") else some["p"]["fields"][0]["p"]
+
+        def rec(i, s):
+            if i == len(seq) or s.ret is not None:
+                yield s, ("unit",)
+                return
+            s2 = s.fork()
+            self.match(sub, seq[i], s2.env)
+            for s3, _ in self.ev(some["b"], s2):
+                if s3.ret is not None:
+                    yield s3, ("unit",)
+                elif s3.brk is True:
+                    s4 = s3.fork()
+                    s4.brk = False
+                    yield s4, ("unit",)
+                else:
+                    s4 = s3.fork()
+                    s4.brk = False
+                    yield from rec(i + 1, s4)
+        n = 0
+        for r in rec(0, st):
+            n += 1
+            if n > self.max_paths:
+                raise TooManyPaths()
+            yield r
+
     def ev_Loop(self, e, st):
         self.loops += 1
         s2 = st.fork(("loop-iteration",))
@@ -544,7 +612,7 @@ class Evaluator:
 
     def ev_Continue(self, e, st):
         s = st.fork()
-        s.brk = True
+        s.brk = "continue"
         yield s, ("unit",)
 
     def ev_Ret(self, e, st):
@@ -636,7 +704,46 @@ class Evaluator:
         some = lambda x: ("v", "Some", [x])
         none = ("v", "None", [])
         is_opt = lambda v: v[0] == "v" and v[1] in ("Some", "None")
-        if c.endswith("RangeInclusive::<Idx>::new") and len(args) == 2:
+        seq0 = self.as_seq(a0) if a0 is not None else None
+        if seq0 is not None and method in ("iter", "into_iter", "to_vec", "as_slice", "iter_mut", "cloned", "copied", "as_ref", "by_ref", "deref", "clone") and len(args) == 1:
+            yield s, ("iterv", list(seq0))
+        elif seq0 is not None and method == "enumerate" and len(args) == 1:
+            yield s, ("iterv", [("tuple", [("lit", i), x]) for i, x in enumerate(seq0)])
+        elif seq0 is not None and method == "rev" and len(args) == 1:
+            yield s, ("iterv", list(reversed(seq0)))
+        elif seq0 is not None and method in ("map", "filter", "filter_map") and len(args) == 2 and args[1][0] == "closure" and len(args[1]) == 4:
+            out, ok = [], True
+            for x in seq0:
+                rs = list(self.apply_closure(args[1], [x], s))
+                if len(rs) != 1:
+                    ok = False
+                    break
+                r = rs[0][1]
+                if method == "map":
+                    out.append(r)
+                elif method == "filter":
+                    if r == mk_bool(True):
+                        out.append(x)
+                    elif r != mk_bool(False):
+                        ok = False
+                        break
+                else:
+                    if r[0] == "v" and r[1] == "Some":
+                        out.append(r[2][0])
+                    elif not (r[0] == "v" and r[1] == "None"):
+                        ok = False
+                        break
+            if ok:
+                yield s, ("iterv", out)
+        elif seq0 is not None and method == "collect" and len(args) == 1:
+            yield s, ("array", list(seq0))
+        elif seq0 is not None and method in ("len", "count") and len(args) == 1:
+            yield s, ("lit", len(seq0))
+        elif seq0 is not None and method == "is_empty" and len(args) == 1:
+            yield s, mk_bool(not seq0)
+        elif seq0 is not None and method in ("first", "last") and len(args) == 1:
+            yield s, (some(seq0[0 if method == "first" else -1]) if seq0 else none)
+        elif c.endswith("RangeInclusive::<Idx>::new") and len(args) == 2:
             yield s, ("range", args[0], args[1], True)
         elif method == "contains" and "ops::range::Range" in c and len(args) == 2 and a0[0] == "range":
             lo, hi, x = a0[1], a0[2], args[1]
